@@ -108,7 +108,7 @@ func (c *Cache) ClearOldEntries(d time.Duration) {
 	defer c.mux.Unlock()
 	for ke, ce := range c.entries {
 		for k, e := range ce.replayMap {
-			if time.Now().UTC().Sub(e.presentedTime) > d {
+			if time.Now().UTC().Sub(e.cTime) > d {
 				delete(ce.replayMap, k)
 			}
 		}
